@@ -394,12 +394,23 @@ func (c *CCtx) ident(name string) CVal {
 	if v, ok := c.vars[name]; ok {
 		return v
 	}
+	if c.e != nil && name != "idx" {
+		if a, ok := c.e.alias[name]; ok {
+			name = a
+		}
+	}
 	if name == "idx" {
-		p, ok := c.phi["rangeindex"]
+		if p, ok := c.phi["rangeindex"]; ok {
+			return CVal{T: fmt.Sprintf("(+ %s 1)", p), Sort: "Int"}
+		}
+		a, ok := "", false
+		if c.e != nil {
+			a, ok = c.e.alias["idx"] // a range loop rewritten as an index loop: idx is bound to its counter, in that loop only
+		}
 		if !ok {
 			bindFail("idx used outside a range loop")
 		}
-		return CVal{T: fmt.Sprintf("(+ %s 1)", p), Sort: "Int"}
+		name = a
 	}
 	isParam := false
 	if c.fn != nil {
